@@ -739,13 +739,24 @@ fn check_after_crash(ctx: &mut Ctx) {
     let vdir = VDir::new();
     vdir.with_state(|s| s.record_data = true);
     let run = c01::run_history(&h, &vdir, &mut |_, _, _, _| {});
-    let trace = match c01::tokenize(&run) {
+    let trace = match c01::tokenize_opt(&run, true) {
         Ok(t) => t,
         Err(e) => {
             ctx.report.violation("model", "C10:trace-not-representable", e, json!({"kind":"after-crash"}));
             return;
         }
     };
+    // the real log satisfies R1-R3 of the model (registered before created, forgotten only after
+    // the unlink is durable): the hypothesis of C10_existing_files_are_managed
+    let reg = ctx.model.ask(&format!("C10 reg {}", trace.line()));
+    ctx.report.count(&format!("storage-discipline-R1-R3:{}", if reg == "ok" { "ok" } else { "violated" }));
+    if reg == "ok" {
+        ctx.report.traces_validated_against_impl += 1;
+    } else {
+        let i: usize = reg.parse().unwrap_or(0);
+        let op = trace.src.get(i).copied().flatten().map(|s| run.log[s].line()).unwrap_or_default();
+        ctx.report.violation("model", "C10:registration-discipline-violated", format!("token {i} ({}) [{op}] breaks R1-R3 (create before registration, or a path dropped from .managed.json before its unlink is durable)", trace.toks.get(i).cloned().unwrap_or_default()), json!({"kind":"after-crash"}));
+    }
     // boundaries right after a file creation (managed rename pending, create pending) and a few others
     let mut ks: Vec<usize> = (trace.base_tok + 1..=trace.toks.len()).filter(|k| trace.toks[k - 1].starts_with('c')).collect();
     let others: Vec<usize> = (trace.base_tok + 1..=trace.toks.len()).filter(|k| { let t = &trace.toks[k - 1]; t.starts_with('t') || t == "s" || t.starts_with('k') }).collect();
@@ -944,6 +955,9 @@ pub fn run(ctx: &mut Ctx) {
         "one collection: real (directory, managed, deleted, failed) = model fullGC = model small-step run, incl. failing deletes".into(),
         "a reader holding META_LOCK keeps its segment files while merge + commit + GC run".into(),
         "recovered crash image + commit + GC: no orphan unless a file exists that the image's .managed.json lacks (S2)".into(),
+        "the real storage log satisfies R1-R3 (model regOK): registered before created, forgotten only after the unlink is durable".into(),
+        "an I/O error on any .managed.json write, then recovery + commit + GC: quiescent equalities hold".into(),
+        "sorted indexes (temp doc store): quiescent equalities hold (finding: temp store relisted by with_delete_meta)".into(),
     ];
     if let Some(case) = ctx.replay.clone() {
         replay(ctx, &case);
